@@ -3,10 +3,13 @@ import itertools
 
 from hypothesis import strategies as st
 
-import pyModeS as pms
-from pyModeS.extra.tcpclient import TcpClient
-from pyModeS.streamer.source import NetSource, RtlSdrSource
-from vlib import gen
+from vlib import variants
+variants.fake_rtlsdr()   # before the reader module is imported
+
+import pyModeS as pms  # noqa: E402
+from pyModeS.extra.tcpclient import TcpClient  # noqa: E402
+from pyModeS.streamer.source import NetSource, RtlSdrSource  # noqa: E402
+from vlib import gen  # noqa: E402
 from vlib.core import Leg, call
 
 PROPERTY = "C16"
@@ -266,8 +269,7 @@ def s_net(draw):
 
 def chk_net(case, note):
     if case.get("source", "net") == "rtl":  # the RTL-SDR source has its own copy of the batching code; built without hardware
-        src = object.__new__(RtlSdrSource)
-        src.reset_local_buffer()
+        src = RtlSdrSource()   # the real constructor, with a stand-in for the missing rtlsdr module
     else:
         src = NetSource("localhost", 0, "beast")
     src.stop_flag = _Flag()
